@@ -48,6 +48,7 @@ func runC01(w *World, r *Report, tier string) {
 	kindRuleTexts(r)
 	unresolvedSeeds(w, r)
 	entries := entryFuncs(w, r, "shape.GetExtendedSpatialIdsOnPoints", "shape.GetSpatialIdsOnPoints")
+	ruleChunks(w, r, closureOf(w, entries))
 	cl := closureOf(w, entries)
 	r.Analysed["closure_functions"] = len(cl)
 	kr := kindRulesFor(w)
@@ -71,6 +72,7 @@ func runC03(w *World, r *Report, tier string) {
 	unresolvedSeeds(w, r)
 	entries := entryFuncs(w, r, "integrate.ChangeExtendedSpatialIdsZoom", "integrate.ChangeSpatialIdsZoom",
 		"integrate.HorizontalZoom", "integrate.HorizontalZoomMinMax", "integrate.VerticalZoom")
+	ruleChunks(w, r, closureOf(w, entries))
 	cl := closureOf(w, entries)
 	r.Analysed["closure_functions"] = len(cl)
 	kr := kindRulesFor(w)
@@ -100,6 +102,7 @@ func runC04(w *World, r *Report, tier string) {
 	kindRuleTexts(r)
 	unresolvedSeeds(w, r)
 	entries := entryFuncs(w, r, "integrate.MergeExtendedSpatialIds", "integrate.MergeSpatialIds")
+	ruleChunks(w, r, closureOf(w, entries))
 	cl := closureOf(w, entries)
 	r.Analysed["closure_functions"] = len(cl)
 	kr := kindRulesFor(w)
